@@ -921,11 +921,16 @@ def run_session(spec, tools, res, stats, sess_rng):
                     # sessions with project reloads: the text the Project holds after the same operations (a file that
                     # is already known is not read again from disk by Project::update_config)
                     ptext = "".join(hf["lines"])
-                    if os.path.exists(p) and p not in opened:
-                        dtext = server_text_of_disk(open(p, "rb").read())
-                        if LINE_SPLIT.sub("\n", dtext) != ptext:
-                            stats["reload_text_differs_from_disk"] += 1
-                    text = ptext
+                    if p in opened:
+                        # an open document: the client's text is the document, whatever the project went through
+                        if LINE_SPLIT.sub("\n", text) != ptext:
+                            stats["open_document_text_differs_in_project"] += 1
+                    else:
+                        if os.path.exists(p):
+                            dtext = server_text_of_disk(open(p, "rb").read())
+                            if LINE_SPLIT.sub("\n", dtext) != ptext:
+                                stats["reload_text_differs_from_disk"] += 1
+                        text = ptext
                 lines = split_lines(text)
                 key = "%d:%s" % (si, f)
                 override = (spec.get("ranges") or {}).get(key)
@@ -1006,7 +1011,9 @@ def run_session(spec, tools, res, stats, sess_rng):
                     stats["files_with_multiline_positions"] += 1
                 # -- the answer must be a function of the document, not of the request history: after range requests came
                 #    first, a no-op didChange (same text; clears the server's caches) must leave the full answer unchanged
-                if mode != "full_first" and "lines" not in hf and (spec.get("noop_recheck") or len(hf["raw"]) <= 1500):
+                # (not with duplicate design units: there a re-sent text legitimately changes which copy is the accepted one)
+                if mode != "full_first" and "lines" not in hf and not spec.get("duplicates") and \
+                        (spec.get("noop_recheck") or len(hf["raw"]) <= 1500):
                     if p in opened:
                         opened[p] += 1
                         ls.notify("textDocument/didChange", {"textDocument": {"uri": L.uri(p), "version": opened[p]},
@@ -1238,11 +1245,14 @@ def corpus_sessions():
         for b in c.get("batches", []):
             steps.append({"edit": {"file": b["file"], "changes": b["changes"]}, "query": b.get("query", [b["file"]])})
         for st in c.get("steps", []):
+            ed = st.get("edit")
             steps.append({"disk": {k: (None if v is None else {"text": v}) for k, v in (st.get("disk") or {}).items()},
-                          "toml": st.get("toml"), "notify": st.get("notify"), "edit": None, "query": st["query"]})
+                          "toml": st.get("toml"), "notify": st.get("notify"),
+                          "edit": {"file": ed["file"], "spec": {"text": ed["text"]}} if ed else None, "query": st["query"]})
         out.append({"name": "corpus_" + c["name"], "toml": c["toml"], "files": files, "steps": steps, "nranges": 5,
                     "hier": c.get("hier", True), "fresh_compare": c.get("fresh_compare", False), "noop_recheck": True,
-                    "orders": c.get("orders"), "default_order": c.get("default_order", "range_first")})
+                    "orders": c.get("orders"), "default_order": c.get("default_order", "range_first"),
+                    "duplicates": c.get("duplicates", False)})
     return out
 
 
@@ -1401,6 +1411,62 @@ def session_batched(rng, name, n_steps, nranges=2):
     return {"name": name, "toml": toml, "files": files, "steps": steps, "nranges": nranges, "fresh_compare": True}
 
 
+SHIFTS = ["-- shifted\n", "-- a comment line that is longer than most identifiers of the file\n-- second\n", "\n\n\n",
+          "--\n--\n--\n--\n--\n"]
+
+
+def shifted(rng, base):
+    """`base` with comment / blank lines put in front (all positions move) and sometimes a further mutation."""
+    t = rng.choice(SHIFTS) * rng.choice([1, 1, 2, 3]) + base
+    if rng.random() < 0.3:
+        t = apply_ops(t, random_ops(rng, t))
+    return t
+
+
+def session_duplicates(rng, name, n_steps, nranges=2):
+    """Whole-file copies in one library (every design unit of the copy duplicates a unit of the original) and edits of
+    either side in turn, each shifting the lines: the tokens and symbols of both files must follow the client's text."""
+    files = gen_project(rng, "u", wild=False)
+    names = sorted(files)
+    pairs = []
+    for f in rng.sample(names, 3):
+        files["copy_" + f] = dict(files[f])
+        pairs.append((f, "copy_" + f))
+    allnames = sorted(files)
+    toml = "[libraries]\nlu.files = [%s]\n" % ", ".join("'%s'" % f for f in allnames)
+    base = {f: spec_text(files[f]) for f in allnames}
+    steps = [{"edit": None, "query": allnames}]
+    for k in range(n_steps):
+        a, b = pairs[k % len(pairs)]
+        first, second = (b, a) if (k // len(pairs)) % 2 == 0 else (a, b)
+        steps.append({"edit": {"file": first, "spec": {"text": shifted(rng, base[first])}}, "query": [a, b]})
+        steps.append({"edit": {"file": second, "spec": {"text": shifted(rng, base[second])}}, "query": [a, b]})
+    return {"name": name, "toml": toml, "files": files, "steps": steps, "nranges": nranges, "duplicates": True}
+
+
+def session_drop_readd(rng, name, n_rounds, nranges=2):
+    """Open documents with unsaved edits leave the project (vhdl_ls.toml no longer lists them) and come back by later
+    reloads; requests before the client re-sends the text: tokens and symbols must describe the client's text."""
+    files = gen_project(rng, "q", wild=False)
+    names = sorted(files)
+
+    def toml_of(present):
+        return "[libraries]\nlq.files = [%s]\n" % ", ".join("'%s'" % f for f in names if f in present)
+
+    base = {f: spec_text(files[f]) for f in names}
+    steps = [{"edit": None, "query": names}]
+    for k in range(n_rounds):
+        f = rng.choice(names)
+        others = [g for g in names if g != f]
+        steps.append({"edit": {"file": f, "spec": {"text": shifted(rng, base[f])}}, "query": [f]})
+        steps.append({"toml": toml_of(others), "notify": "watched", "edit": None, "query": [f, rng.choice(others)]})
+        if rng.random() < 0.5:
+            steps.append({"edit": {"file": f, "spec": {"text": shifted(rng, base[f])}}, "query": [f]})
+        steps.append({"toml": toml_of(names), "notify": "watched", "edit": None, "query": [f, rng.choice(others)]})
+    steps[-1]["query"] = names
+    return {"name": name, "toml": toml_of(names), "files": files, "steps": steps, "nranges": nranges, "fresh_compare": True}
+
+
 def session_reload(rng, name, n_steps):
     """Project reloads without content changes: the library mapping of files changes in vhdl_ls.toml (moved, mapped
     twice, unmapped), files are created / deleted on disk; announced by didChangeWatchedFiles / didCreateFiles /
@@ -1521,7 +1587,8 @@ def new_stats():
             "coq_sample": [], "samples": [], "sessions": [],
             "analysis_panics_outside_c16": [], "server_deaths_outside_c16": [],
             "reloads": 0, "fresh_compared": 0, "reload_text_differs_from_disk": 0,
-            "batched_changes": 0, "batched_changes_order_matters": 0, "orders": {}, "noop_rechecks": 0}
+            "batched_changes": 0, "batched_changes_order_matters": 0, "orders": {}, "noop_rechecks": 0,
+            "open_document_text_differs_in_project": 0}
 
 
 def merge_stats(into, st):
@@ -1598,6 +1665,9 @@ def main(tier, replay=None):
             go(session_reload(rng, "reload", 40), "reload")
             for k in range(4):
                 go(session_batched(rng, "batched%d" % k, 40, nranges=4), "batched%d" % k)
+            for k in range(3):
+                go(session_duplicates(rng, "duplicates%d" % k, 12, nranges=3), "duplicates%d" % k)
+                go(session_drop_readd(rng, "drop_readd%d" % k, 10, nranges=3), "drop_readd%d" % k)
         else:
             go(session_libs(rng, 2, n_lib_files=2, nranges=2, name="libs_a", n_big=2), "libs_a")
             go(session_libs(rng, 1, n_lib_files=5, nranges=2, name="libs_b", n_big=1), "libs_b")
@@ -1607,6 +1677,8 @@ def main(tier, replay=None):
                 go(session_mutants(rng, "mutants%d" % k, 4, 4, nranges=2), "mutants%d" % k)
             go(session_generated(rng, "generated", 1, 6, nranges=1), "generated")
             go(session_batched(rng, "batched", 10), "batched")
+            go(session_duplicates(rng, "duplicates", 3), "duplicates")
+            go(session_drop_readd(rng, "drop_readd", 2), "drop_readd")
         go(session_reload_disk(rng, "reload_disk"), "reload_disk")
         go(session_generated(rng, "generated_flat", 1, 5 if thorough else 2, hier=False, nranges=1), "generated_flat")
         for spec in corpus_sessions():
@@ -1644,7 +1716,9 @@ def main(tier, replay=None):
         "change + reload, oracle against the text the Project holds (harness dump); (batched) didChange notifications carrying 2-4 "
         "incremental content changes (bottom-up multi-cursor, top-down in post-edit coordinates, unordered; insert/delete/replace, "
         "multi-line, interacting ranges): oracle and model use the CLIENT's text (changes spliced in listed order), final answers "
-        "compared with a fresh server opened on that text. The order of the token requests after each cache-clearing event is "
+        "compared with a fresh server opened on that text; (duplicates) whole-file copies in one library, both sides edited in turn "
+        "with shifted lines; (drop_readd) open documents with unsaved edits unmapped by a reload and mapped again by a later one, "
+        "requests before the text is re-sent (open documents are always validated against the client's text). The order of the token requests after each cache-clearing event is "
         "randomised per file (full first / all ranges first / interleaved; corpus: ranges first); the ranges are chosen before any "
         "request from the Project's reference lines; every answer is compared with the extracted model on the Project's references, "
         "and after range-first orders a no-op didChange + second full request must reproduce the full answer. Quick tier: the corpus, a seed-dependent sample of 12 "
